@@ -14,7 +14,60 @@ import (
 func ruleSuiteProvenance(c *Ctx, r *Report) {
 	const rule = "suite-from-intersection"
 	n := 0
-	isFMCS := nameIs("internal/flight.FindMatchingCipherSuite", pkgF13+".selectServerHelloCipherSuite")
+	// the intersection helper itself, or a selection helper of a flight package that hands back
+	// nothing but the helper's result, asked with the local list, and only when it matched
+	selectors := map[*ssa.Function]bool{}
+	selector := func(g *ssa.Function) bool {
+		if g == nil || !inModule(g) || len(g.Blocks) == 0 || g.Signature.Results().Len() < 2 {
+			return false
+		}
+		if v, done := selectors[g]; done {
+			return v
+		}
+		selectors[g] = false
+		calls := findCalls(g, nameIs("internal/flight.FindMatchingCipherSuite"))
+		if len(calls) != 1 {
+			return false
+		}
+		call := calls[0]
+		why := ""
+		if !isFieldLoad(call.Call.Args[1], tCfg, "LocalCipherSuites") {
+			why = "the offer is not intersected with the locally enabled suites (cfg.LocalCipherSuites)"
+		}
+		for _, b := range g.Blocks {
+			ret, isRet := b.Instrs[len(b.Instrs)-1].(*ssa.Return)
+			if !isRet || isNilConst(unspill(ret.Results[0])) {
+				continue
+			}
+			if !allLeaves(c.Origins(unspill(ret.Results[0]), 0), func(v ssa.Value) bool {
+				ex, isEx := v.(*ssa.Extract)
+				return isEx && ex.Tuple == ssa.Value(call) && ex.Index == 0
+			}) {
+				why = "it hands back a suite that is not the result of the intersection (" + c.ipos(ret) + ")"
+			}
+		}
+		w := (&Walk{Fn: g, Assume: failAssumption(resultValue(call, 1))}).After(call)
+		for _, ro := range w.Returns {
+			if !isNilConst(unspill(ro.Ret.Results[0])) {
+				why = "it hands back a suite although nothing matched (" + c.ipos(ro.Ret) + ")"
+			}
+		}
+		r.Sites += len(g.Blocks)
+		r.Check(why == "", rule, short(g)+":selector", c.ipos(call), "the selection helper returns the intersection's result, taken with cfg.LocalCipherSuites, only when it matched", "the cipher-suite selection helper is not a faithful wrapper of the intersection: "+why)
+		selectors[g] = why == ""
+		return selectors[g]
+	}
+	isIntersection := func(v ssa.Value) bool {
+		if isCallResult(v, nameIs("internal/flight.FindMatchingCipherSuite")) {
+			return true
+		}
+		ex, isEx := v.(*ssa.Extract)
+		if !isEx || ex.Index != 0 {
+			return false
+		}
+		call, isCall := ex.Tuple.(*ssa.Call)
+		return isCall && selector(call.Call.StaticCallee())
+	}
 	for _, st := range c.StoresTo(tCom, "CipherSuite") {
 		fn := st.Fn
 		key := short(fn)
@@ -25,7 +78,7 @@ func ruleSuiteProvenance(c *Ctx, r *Report) {
 		}
 		n++
 		ls := c.Origins(st.Val, 0)
-		ok := allLeaves(ls, func(v ssa.Value) bool { return isCallResult(v, isFMCS) })
+		ok := allLeaves(ls, isIntersection)
 		if !ok {
 			r.Bad(rule, key, c.ipos(st.Instr), "the negotiated cipher suite is stored from a value that is not the result of the offer/local-list intersection: "+c.describeAll(ls))
 			continue
